@@ -131,6 +131,18 @@ check('C11', 'translation_validation',
       'translation validation in TLC of the pushed-down query against the original (TLA+ reference semantics)',
       'DESIGN.md 2.6, 5/C11')
 
+check('C09', 'model_checking',
+      'PlanBuilder.tla transcribes the join-sequence / partition algorithm of plan_join.py at skeleton level; TLC proves '
+      'Numbered, ForwardOnly and LastIsAnswer over all join sequences of up to 4 items (tables, semi-join tables, '
+      'models with/without partition_size) and exhibits the counterexample of the unrepaired algorithm; every model '
+      'behaviour is planned by the real planner and the skeletons compared (binding); every real plan from the '
+      'planner tests own queries/catalogs and from generated join sequences, DML and set operations under 5 catalog '
+      'shapes is projected by reflection and judged by TLC (PlanTrace), and planning outcomes are restricted to '
+      'plan / PlanningException / NotImplementedError.',
+      'LastIsAnswer is read structurally (every earlier result is consumed later). Query/catalog space is sampled.',
+      'TLA+ model of the plan builder checked by TLC + TLC judgement of recorded plan skeletons',
+      'DESIGN.md 2.7, 5/C09')
+
 ALL = ['C%02d' % i for i in range(1, 21)]
 
 
